@@ -116,7 +116,9 @@ theorem reachQ_reach (c : Cfg) (g : GoodCfg c) (r : Reg) (S : Ledger × Bool) (h
     | start => exact ⟨hnext, hrun'⟩
 
 /-- histories that also use `dealloc` / `dealloc_raw` / `dealloc_root` (src/Alloc.c) on managed objects: the block is
-    released — the object is no longer live — and the collector is not told -/
+    released — the object is no longer live — and the collector is not told.  `del_raw` of a managed object is the same
+    transition (`del_raw` is `dealloc(destruct(self))` without GC_Rem; `okOp (.delRaw p)` keeps it out of `Op`): constructor
+    `dealloc` models both entrances to KF-C17-dealloc-stale (for the `del_raw` one see also `C17_del_raw_managed_refuted`). -/
 inductive ReachD (c : Cfg) : Reg → Ledger → Prop where
   | init : ReachD c Reg.init []
   | step {r : Reg} {L : Ledger} {op : Op} {r' : Reg} :
